@@ -39,7 +39,7 @@ SHARD_TIMEOUT = {'quick': 300, 'thorough': 2400}
 
 def plan(tier, seed):
     n = 16 if tier == 'quick' else 64
-    return [{'shard': i, 'collections': 28 if tier == 'quick' else 500} for i in range(n)]
+    return [{'shard': i, 'collections': 22 if tier == 'quick' else 500} for i in range(n)]
 
 
 def attr_text(r: random.Random, target_len: int):
@@ -87,6 +87,41 @@ def nlri_texts(r: random.Random, fam, count, base):
     return out
 
 
+SWEEP_BASE_ROOM = 330  # the big template leaves this much room at 4096; an extra attribute of 3+L octets narrows it octet by octet
+
+
+def sweep_template(conf, cache: dict):
+    """the (slow to parse) 900 community attribute set, parsed once per shard by the real parser"""
+    if 'tmpl' not in cache:
+        target = 4096 - 23 - SWEEP_BASE_ROOM
+        atext, ncomm = attr_text(random.Random(5), target)
+        trs = conf.parse_route_text(f'route 192.0.2.0/24 next-hop 192.0.2.1 {atext}', 'announce')
+        cache['tmpl'] = (trs[0].attributes if trs else None, atext, ncomm)
+    return cache['tmpl']
+
+
+def sweep_attributes(conf, cache: dict, L: int):
+    """template attributes + one unknown optional transitive attribute with L octets of payload (parsed by the real parser,
+    added with AttributeCollection.add as the parser does): the attribute block grows by 3 + L octets"""
+    from exabgp.bgp.message.update.attribute.collection import AttributeCollection
+
+    tmpl, atext, ncomm = sweep_template(conf, cache)
+    if tmpl is None:
+        return None, atext, ncomm
+    if ('coll', L) in cache:
+        return cache[('coll', L)], atext, ncomm
+    extra = conf.parse_route_text('route 192.0.2.0/24 next-hop 192.0.2.1 attribute [ 0xf0 0xc0 0x%s ]' % ('ab' * L), 'announce') if L >= 0 else []
+    coll = AttributeCollection()
+    for attr in tmpl.values():
+        coll.add(attr)
+    for x in extra:
+        for code, attr in x.attributes.items():
+            if code not in coll:
+                coll.add(attr)
+    cache[('coll', L)] = coll
+    return coll, atext, ncomm
+
+
 def run_shard(desc):
     from exabgp.bgp.message.update.collection import RoutedNLRI, UpdateCollection
     from exabgp.rib.route import Route
@@ -94,15 +129,32 @@ def run_shard(desc):
     res = Result()
     exa.quiet()
     r = random.Random(desc['seed'] * 6700417 + desc['shard'])
-    for ci in range(desc['collections']):
-        ext = r.random() < 0.4
+    cache: dict = {}
+    nsweep = 224 if desc['tier'] == 'quick' else 896  # every room of the sweep once (quick) or four times (thorough) per shard, under two sessions each
+    for ci in range(desc['collections'] + nsweep):
+        sweep = ci >= desc['collections']
+        ext = r.random() < 0.4 and not sweep
         maxsize = 65535 if ext else 4096
         k = {'ibgp': r.random() < 0.5, 'las': 65000, 'peer_asn4': True, 'addpath': r.choice([0, 0, 3]), 'extmsg': ext}
         mix = r.choice(['v4', 'v6', 'v4+v6', 'v4+label', 'v4+v6+label'])
         fams = {'v4': [(1, 1)], 'v6': [(2, 1)], 'v4+v6': [(1, 1), (2, 1)], 'v4+label': [(1, 1), (1, 4)], 'v4+v6+label': [(1, 1), (2, 1), (1, 4)]}[mix]
         mode = r.choice(['announce', 'announce', 'withdraw', 'both'])
         regime = r.choice(['small', 'extlen-switch', 'near-max', 'near-max', 'fill'])
-        if regime == 'small':
+        sweep_L = None
+        if sweep:
+            # the room left for the MP attribute crosses 255 octets (its own header grows from 3 to 4 octets there): every
+            # room from ~215 to ~325 octets is visited, each shard and seed taking its own slice
+            regime = 'mp-extlen-sweep'
+            mix = r.choice(['v6', 'v6', 'v4+v6', 'v4+label'])
+            fams = {'v6': [(2, 1)], 'v4+v6': [(1, 1), (2, 1)], 'v4+label': [(1, 1), (1, 4)]}[mix]
+            mode = r.choice(['announce', 'announce', 'withdraw', 'both'])
+            # every room twice in a row: the second time the SAME attribute collection object is packed for a session which
+            # differs in the 4-byte AS capability only (a peer which comes back with another OPEN)
+            sj = ci - desc['collections']
+            sweep_L = (sj // 2 + 7 * desc['shard'] + 13 * desc['seed']) % 112
+            k = dict(k, ibgp=False, peer_asn4=(sj % 2 == 0))
+            target = 4096 - 23 - SWEEP_BASE_ROOM + 3 + sweep_L
+        elif regime == 'small':
             target = r.choice([0, 40, 120])
         elif regime == 'extlen-switch':
             target = r.randrange(246, 266)
@@ -114,9 +166,16 @@ def run_shard(desc):
                 target = r.randrange(3000, 5000)
         else:
             target = r.choice([60, 300, 1500])
-        atext, ncomm = attr_text(r, target)
+        if not sweep:
+            atext, ncomm = attr_text(r, target)
         try:
-            conf, nb, neg, ref, ctext = c01.build(k, [])
+            if sweep:
+                # the sweep packs directly (no RIB state): one session per kind is built once and reused
+                if c01.sname(k) not in cache:
+                    cache[c01.sname(k)] = c01.build(k, [])
+                conf, nb, neg, ref, ctext = cache[c01.sname(k)]
+            else:
+                conf, nb, neg, ref, ctext = c01.build(k, [])
         except Exception as e:  # noqa
             res.inconclusive.append(f'session build failed: {e}')
             continue
@@ -132,6 +191,8 @@ def run_shard(desc):
         for fam in fams:
             fit = max(1, room // per[fam])
             count = r.choice([1, 2, fit - 1, fit, fit + 1, 2 * fit + 1, r.randrange(1, 3 * fit + 2)])
+            if sweep:
+                count = r.choice([fit, 2 * fit + 1, 3 * fit + 2, 4 * fit])  # several full MP attributes, each filled to the brim
             count = max(1, min(count, (17000 if ext else 1100) if desc['tier'] == 'quick' else (17000 if ext else 6000)))
             hops = {(1, 1): ['192.0.2.1'], (2, 1): ['2001:db8::1', '2001:db8::2', '2001:db8::3', '2001:db8::4'][: r.choice([1, 1, 2, 4])], (1, 4): ['192.0.2.7', '192.0.2.8'][: r.choice([1, 2])]}[fam]
             for i, p in enumerate(nlri_texts(r, fam, count, base)):
@@ -141,6 +202,13 @@ def run_shard(desc):
                 withdraw = mode == 'withdraw' or (mode == 'both' and i % 3 == 0)
                 # the (long) attribute text is parsed once per collection by the real parser; every route is parsed
                 # by the real parser too, with its own prefix / next hop / label / path-id, and shares that attribute set
+                if template is None and sweep:
+                    coll, atext, ncomm = sweep_attributes(conf, cache, sweep_L)
+                    if coll is None:
+                        res.inconclusive.append('sweep template refused by the parser')
+                        ok = False
+                        break
+                    template = Route(conf.parse_route_text('route 192.0.2.0/24 next-hop 192.0.2.1', 'announce')[0].nlri, coll, nexthop=None)
                 if template is None:
                     try:
                         trs = conf.parse_route_text(f'route 192.0.2.0/24 next-hop 192.0.2.1 {atext}', 'announce')
@@ -189,12 +257,14 @@ def run_shard(desc):
                 break
         if not ok or attributes is None:
             continue
-        alen = attr_block_len(k['ibgp'], True, ncomm, 'large-community' in atext, True)
+        alen = attr_block_len(k['ibgp'], bool(ref['asn4']), ncomm, 'large-community' in atext, True) + ((3 + sweep_L) if sweep else 0)
         smallest = min(per[f] for f in fams)
         room_for_one = 19 + 4 + alen + smallest + (0 if fams == [(1, 1)] else 12) <= maxsize
         wit_room = {'attr_block_len': alen, 'room_for_one': room_for_one}
         include_withdraw = r.random() < 0.7
         via = r.choice(['direct', 'direct', 'rib'])
+        if sweep:
+            via = 'direct'
         # OutgoingRIB.updates() never puts announcements and withdrawals in one UpdateCollection, but the generator
         # accepts both and the statement says "any set of routes to announce and withdraw": mode 'both' is driven
         # through the RIB and directly
@@ -313,10 +383,16 @@ def run_shard(desc):
             res.ok(cls, (maxsize, mix, mode, regime, bucket, via))
             res.ok('distance:' + bucket)
             res.ok('via:' + via)
+            if sweep:
+                res.ok('mp-room-sweep')
+                res.extra.setdefault('mp_rooms_visited', [])
+                room_left = maxsize - 23 - alen
+                if room_left not in res.extra['mp_rooms_visited']:
+                    res.extra['mp_rooms_visited'].append(room_left)
             if dup_a or dup_w:
                 res.count('identical-resend', dup_a + dup_w)
             res.sample({'max': maxsize, 'mix': mix, 'mode': mode, 'messages': len(raws), 'sizes': sizes[:5], 'announce': len(requested_a)}, limit=3)
     return res
 
 
-REQUIRED_CLASSES = {'quick': ['distance:at-limit', 'distance:within8', 'distance:far', 'via:direct', 'via:rib'], 'thorough': ['distance:at-limit', 'distance:within8', 'distance:far', 'via:direct', 'via:rib']}
+REQUIRED_CLASSES = {'quick': ['mp-room-sweep', 'distance:at-limit', 'distance:within8', 'distance:far', 'via:direct', 'via:rib'], 'thorough': ['distance:at-limit', 'distance:within8', 'distance:far', 'via:direct', 'via:rib']}
